@@ -57,6 +57,7 @@ type c11obj struct {
 	owner   atomic.Int64 // transaction id of the current write owner, 0 = none
 	readers sync.Map     // tx id -> *atomic.Int64 (active read callbacks)
 	dead    atomic.Bool
+	deadBy  atomic.Int64 // transaction that killed it
 	scratch int // plain field: overlapping callbacks of different transactions are a data race
 }
 
@@ -75,6 +76,10 @@ type c11tx struct {
 	id     int64
 	prog   []c11access
 	commit bool // Commit(true)?
+	// goroutines of ONE transaction may use a cache together (by design); this
+	// mutex orders their accesses to the plain field so that the race detector
+	// only reports overlaps between DIFFERENT transactions
+	mu sync.Mutex
 }
 
 type c11world struct {
@@ -142,7 +147,7 @@ func (w *c11world) access(t *cache.Transaction, tx *c11tx, a c11access, idx int,
 			mode = "read"
 		}
 		w.log("tx%d %s enters obj#%d(%s)", tx.id, mode, o.serial, o.name)
-		if o.dead.Load() {
+		if o.dead.Load() && o.deadBy.Load() != tx.id {
 			w.violate("dead-cache-reused", "dead-reuse:"+mode, fmt.Sprintf("transaction %d was handed object #%d of cache %q for a %s access although a failed transaction wrote it or failed on it before", tx.id, o.serial, o.name, mode))
 		}
 		if own := o.owner.Load(); own != 0 && own != tx.id {
@@ -162,13 +167,17 @@ func (w *c11world) access(t *cache.Transaction, tx *c11tx, a c11access, idx int,
 			o.owner.Store(tx.id)
 		}
 		// plain field access: overlapping callbacks of different transactions race
+		tx.mu.Lock()
 		o.scratch++
+		tx.mu.Unlock()
 		w.delay("in-callback", tx.id, idx)
 		if a.park && parked != nil {
 			close(parked)
 			<-release
 		}
+		tx.mu.Lock()
 		o.scratch++
+		tx.mu.Unlock()
 		if !a.readOnly {
 			// still the owner?
 			if own := o.owner.Load(); own != tx.id {
@@ -176,6 +185,7 @@ func (w *c11world) access(t *cache.Transaction, tx *c11tx, a c11access, idx int,
 			}
 		}
 		if a.cbFails {
+			o.deadBy.CompareAndSwap(0, tx.id)
 			o.dead.Store(true)
 			return errCallback
 		}
@@ -187,7 +197,11 @@ func genC11Program(rng *rand.Rand, two bool) []c11access {
 	n := 1 + rng.IntN(4)
 	p := make([]c11access, n)
 	for i := range p {
-		p[i] = c11access{name: []string{"A", "B"}[rng.IntN(2)], readOnly: rng.IntN(2) == 0, cbFails: rng.IntN(7) == 0, makeFails: rng.IntN(12) == 0, secondGoro: two && rng.IntN(3) == 0}
+		p[i] = c11access{name: []string{"A", "B"}[rng.IntN(2)], readOnly: rng.IntN(2) == 0, cbFails: rng.IntN(7) == 0, makeFails: rng.IntN(12) == 0}
+		// a second goroutine inside a transaction only reads (as the parallel
+		// sub-queries of one search do); parallel writers of one transaction would
+		// take their write locks in an order the program does not control
+		p[i].secondGoro = two && p[i].readOnly && rng.IntN(3) == 0
 	}
 	// Writers wait for the cache lock (by design: storage admits one writer
 	// per shard at a time, and a shard's writer takes its index caches in one
@@ -211,6 +225,20 @@ func genC11Program(rng *rand.Rand, two bool) []c11access {
 					p[i].name = "A"
 				}
 			}
+		}
+	}
+	// ... and never writes A again after it wrote B: when A's cache was evicted or
+	// scrapped and rebuilt by someone else in the meantime, that second write locks a
+	// different element, i.e. takes an "A" lock after a "B" lock
+	wroteB := false
+	for i := range p {
+		if p[i].readOnly {
+			continue
+		}
+		if p[i].name == "B" {
+			wroteB = true
+		} else if wroteB {
+			p[i].readOnly = true
 		}
 	}
 	return p
@@ -307,7 +335,7 @@ func (c11) RunCase(c fw.Case, env *fw.Env) *fw.CaseResult {
 			go func(tx *c11tx) {
 				defer wg.Done()
 				t := w.mgr.NewTransaction()
-				failed := false
+				var failedFlag atomic.Bool
 				var inner sync.WaitGroup
 				for i, a := range tx.prog {
 					w.delay("before-access", tx.id, i)
@@ -316,7 +344,7 @@ func (c11) RunCase(c fw.Case, env *fw.Env) *fw.CaseResult {
 						go func(i int, a c11access) {
 							defer inner.Done()
 							if err := w.access(t, tx, a, i, nil, nil); err != nil {
-								failed = true
+								failedFlag.Store(true)
 							}
 						}(i, a)
 						continue
@@ -326,11 +354,11 @@ func (c11) RunCase(c fw.Case, env *fw.Env) *fw.CaseResult {
 						pk, rl = parked, release
 					}
 					if err := w.access(t, tx, a, i, pk, rl); err != nil {
-						failed = true
+						failedFlag.Store(true)
 					}
 				}
 				inner.Wait()
-				fail := failed || tx.commit
+				fail := failedFlag.Load() || tx.commit
 				if fail {
 					// everything this transaction wrote is now dead
 					markDead(w, tx.id)
@@ -368,7 +396,7 @@ func (c11) RunCase(c fw.Case, env *fw.Env) *fw.CaseResult {
 			buf := make([]byte, 1<<20)
 			n := runtime.Stack(buf, true)
 			if wit := fw.DeadlockWitness(string(buf[:n])); wit != "" {
-				w.violate("deadlock", "transactions-stuck", "transactions did not finish within 20 s; goroutine dump shows: "+wit)
+				w.violate("deadlock", "transactions-stuck", "transactions did not finish within 20 s; goroutine dump shows: "+wit+"\nprograms: "+fmt.Sprint(progsOf(txs))+"\n"+trimStacks(string(buf[:n])))
 			} else {
 				res.Inconclusive++
 				res.Note("schedule %d did not finish within 20 s without a deadlock witness", sc)
@@ -422,6 +450,14 @@ func (c11) RunCase(c fw.Case, env *fw.Env) *fw.CaseResult {
 	return res
 }
 
+func progsOf(txs []*c11tx) []string {
+	out := make([]string, len(txs))
+	for i, tx := range txs {
+		out[i] = fmt.Sprintf("tx%d[%s commitFail=%v]", tx.id, progString(tx.prog), tx.commit)
+	}
+	return out
+}
+
 func (w *c11world) entriesCopy(n int) []string {
 	w.mu.Lock()
 	defer w.mu.Unlock()
@@ -440,6 +476,7 @@ func clearOwner(w *c11world, tx int64) {
 func markDead(w *c11world, tx int64) {
 	for _, o := range w.objsCopy() {
 		if o.owner.Load() == tx {
+			o.deadBy.CompareAndSwap(0, tx)
 			o.dead.Store(true)
 		}
 	}
